@@ -87,6 +87,8 @@ class URI(object):
                 self.host, _, self.port = ipv6locationmatch.groups()
             else:
                 self.host, _, self.port = location.partition(":")
+            if not self.host:
+                raise errors.PyroError("invalid uri (location)")
             if not self.port:
                 self.port = defaultPort
             try:
